@@ -95,7 +95,7 @@ def run(ctx):
     c10.f3(common.RelabelCtx(ctx, "C15.N5", keep=("json-disclosures",)), fx)
     # N7: narrowing reads back what this library wrote: the JSON envelope a holder emits (possibly with an empty disclosure list, which
     # narrowing down to nothing produces) must be an envelope the parser accepts -- rule shared with C10.F4 / C01.h
-    c10.f4(common.RelabelCtx(ctx, "C15.N7"), fx, "C15.N7")
+    c10.f4(common.RelabelCtx(ctx, "C15.N7", keep=("envelope-member", "envelope-names")), fx, "C15.N7")
 
 
 def n6(ctx, fx, H):
